@@ -18,6 +18,45 @@ c05c_tree.ENABLED = True
 P = 'C05'
 B = 'biogeme.expressions.'
 
+_REPLAY_NODES = '''
+# value semantics of the expression nodes on the real Python evaluator (fixed candidates): constructors, operator
+# overloads, validate_and_convert, n-ary sums, log-logit node
+import logging, math, warnings
+logging.disable(logging.CRITICAL); warnings.filterwarnings('ignore')
+from biogeme.expressions import (Beta, Numeric, exp, log, logzero, bioMultSum, ConditionalSum, ConditionalTermTuple,
+                                 validate_and_convert)
+from biogeme.expressions.logit_expressions import LogLogit, _bioLogLogit, _bioLogLogitFullChoiceSet
+a, b = Beta('a', 0.75, None, None, 0), Beta('b', -1.5, None, None, 0)
+x, y = 0.75, -1.5
+checks = [
+    ('a + b', (a + b).get_value(), x + y), ('a - b', (a - b).get_value(), x - y), ('a * b', (a * b).get_value(), x * y),
+    ('a / b', (a / b).get_value(), x / y), ('2.0 / a', (2.0 / a).get_value(), 2.0 / x), ('a - 1.0', (a - 1.0).get_value(), x - 1.0),
+    ('3 - a', (3 - a).get_value(), 3 - x), ('2 * b', (2 * b).get_value(), 2 * y), ('1 + b', (1 + b).get_value(), 1 + y),
+    ('a != b', (a != b).get_value(), 1.0), ('a != 0.75', (a != Numeric(0.75)).get_value(), 0.0),
+    ('exp(b)', exp(b).get_value(), math.exp(y)), ('log(a)', log(a).get_value(), math.log(x)),
+    ('logzero(0)', logzero(Numeric(0)).get_value(), 0.0), ('logzero(a)', logzero(a).get_value(), math.log(x)),
+    ('Numeric(2)', Numeric(2).get_value(), 2.0), ('convert(True)', validate_and_convert(True).get_value(), 1.0),
+    ('convert(False)', validate_and_convert(False).get_value(), 0.0), ('convert(3)', validate_and_convert(3).get_value(), 3.0),
+    ('convert(a) is a', 1.0 if validate_and_convert(a) is a else 0.0, 1.0),
+    ('bioMultSum', bioMultSum([a, b, a]).get_value(), x + y + x),
+    ('ConditionalSum', ConditionalSum([ConditionalTermTuple(condition=Numeric(1), term=a), ConditionalTermTuple(condition=Numeric(0), term=b),
+                                       ConditionalTermTuple(condition=b, term=b)]).get_value(), x + y),
+]
+V, av = {1: a, 3: b, 4: Numeric(0.25)}, {1: Numeric(1), 3: Numeric(1), 4: Numeric(0)}
+for cls, args, want in ((LogLogit, (V, av, 3), -math.log(math.exp(x - y) + 1.0)), (_bioLogLogit, (V, av, Numeric(1)), -math.log(1.0 + math.exp(y - x))),
+                        (LogLogit, (V, None, 4), -math.log(math.exp(x - 0.25) + math.exp(y - 0.25) + 1.0)),
+                        (_bioLogLogitFullChoiceSet, (V, 1), -math.log(1.0 + math.exp(y - x) + math.exp(0.25 - x)))):
+    node = cls(*args)
+    checks.append((f'{cls.__name__}{tuple(args[1:])}', node.get_value(), want))
+    checks.append((f'{cls.__name__} keeps the utilities', 1.0 if list(node.util) == list(V) and all(node.util[k] is V[k] for k in V) else 0.0, 1.0))
+violated = False
+for what, got, want in checks:
+    if not (abs(got - want) <= 1e-12 * max(1.0, abs(want))):
+        violated = True
+        detail = f'{what}: real evaluator gives {got!r}, defining equation {want!r}'
+        break
+'''
+
 for cls, fld in (('BinaryOperator', 'left'), ('BinaryOperator', 'right'), ('UnaryOperator', 'child'),
                  ('ComparisonOperator', 'left'), ('ComparisonOperator', 'right')):
     field_type(cls, fld, 'Expression')
@@ -219,3 +258,10 @@ contract(B + 'logit_expressions._bioLogLogitFullChoiceSet.__init__', P,
                   'av_dom': "forall(lambda x: (x in self.av) == (x in util), ty='int')",
                   'av_ones_by_key': _AV_ONES_BY_KEY.replace('implies(av is None, ', '(', 1),
                   'util_pos': _UTIL_POS, 'av_ones_pos': _AV_ONES_POS.replace('implies(av is None, ', '(', 1)})
+
+
+# one native replay for every contract of this module (fixed candidates on the real evaluator)
+from pyvc.contract import REGISTRY as _REG   # noqa: E402
+for _k, _c in _REG.contracts.items():
+    if P in _c.props and _c.verify and _c.replay is None and _k.startswith(B) and 'LogLogit.get_value' not in _k:
+        _c.replay = _REPLAY_NODES
